@@ -21,8 +21,29 @@ namespace fsh
             unsigned maxus = 0;
             std::atomic<unsigned long long> counter{ 0 };
             std::atomic<unsigned long long> fired{ 0 };
+            // spurious wake-ups: worker -> number of its next waits that return without notification
+            // (std::condition_variable::wait is allowed to do that); size_t(-1) = every worker
+            std::map<std::size_t, std::atomic<int>> spurious;
+            std::atomic<unsigned long long> spurious_fired{ 0 };
         };
         Sched* g_sched = nullptr;
+
+        bool pool_spurious(std::size_t who)
+        {
+            Sched* s = g_sched;
+            if (!s)
+                return false;
+            for (std::size_t key : { who, std::size_t(-1) })
+            {
+                auto it = s->spurious.find(key);
+                if (it != s->spurious.end() && it->second.load() > 0 && it->second.fetch_sub(1) > 0)
+                {
+                    s->spurious_fired.fetch_add(1);
+                    return true;
+                }
+            }
+            return false;
+        }
 
         void pool_hook(int point, std::size_t who)
         {
@@ -98,6 +119,9 @@ namespace fsh
                         sched.delays[{ std::stoi(f.at(1)),
                                        f.at(2) == "*" ? std::size_t(-1) : static_cast<std::size_t>(std::stoull(f.at(2))) }]
                             = static_cast<unsigned>(std::stoul(f.at(3)));
+                    else if (f[0] == "sp")
+                        sched.spurious[f.at(1) == "*" ? std::size_t(-1) : static_cast<std::size_t>(std::stoull(f.at(1)))]
+                            .store(std::stoi(f.at(2)));
                     else if (f[0] == "rand")
                     {
                         sched.seed = std::stoull(f.at(1));
@@ -109,6 +133,7 @@ namespace fsh
                 }
                 g_sched = &sched;
                 fs::verif::hook().store(&pool_hook);
+                fs::verif::spurious_hook().store(&pool_spurious);
                 {
                     pool_type pool(N);
                     int runs = 0;
@@ -179,9 +204,11 @@ namespace fsh
                     }
                 }  // destructor: stop() joins the workers
                 fs::verif::hook().store(nullptr);
+                fs::verif::spurious_hook().store(nullptr);
                 g_sched = nullptr;
                 os << "O pool_done 1\n";
                 os << "I delays_fired " << sched.fired.load() << "\n";
+                os << "I spurious_fired " << sched.spurious_fired.load() << "\n";
             }
             else
                 throw std::logic_error("harness: unknown pool call " + cmd);
